@@ -57,13 +57,15 @@ func frData(sid uint32, data []byte, end bool, pad int) []byte {
 }
 
 // frHeaderBlock renders a header block as HEADERS + CONTINUATION frames cut at
-// the given offsets.
+// the given offsets. An offset given twice makes an empty fragment in between, offset 0 an empty HEADERS fragment, and
+// an offset equal to the block's length an empty last CONTINUATION that carries nothing but END_HEADERS (all legal:
+// RFC 7540 6.10 puts no lower bound on a fragment); offsets beyond the block are dropped.
 func frHeaderBlock(sid uint32, block []byte, endStream bool, cuts []int, pad int) []byte {
 	var out []byte
 	prev := 0
 	parts := [][]byte{}
 	for _, c := range cuts {
-		if c > prev && c < len(block) {
+		if c >= prev && c <= len(block) {
 			parts = append(parts, block[prev:c])
 			prev = c
 		}
